@@ -1,0 +1,13 @@
+//go:build verif
+
+package transport
+
+// VerifYield, when set, is called at the start of every WriteMsg with the message about to be written
+// (build tag "verif" only; see the root package's VerifYield).
+var VerifYield func(point string, arg interface{})
+
+func verifYield(point string, arg interface{}) {
+	if f := VerifYield; f != nil {
+		f(point, arg)
+	}
+}
